@@ -8,9 +8,6 @@ import (
 	"sort"
 	"strings"
 
-	"github.com/sboehler/knut/lib/model/commodity"
-	"github.com/sboehler/knut/lib/model/price"
-	"github.com/shopspring/decimal"
 
 	"kverif/cal"
 	"kverif/core"
@@ -502,130 +499,6 @@ func (k *c12) RunCase(c *core.Ctx, i int) {
 	}
 }
 
-func (k *c12) runLib(c *core.Ctx, i int, h c12Hist) bool {
-	c.Eval(1)
-	c.Observe("shape", h.Shape)
-	reg := commodity.NewCommodities()
-	coms := map[string]*commodity.Commodity{}
-	for _, n := range h.Pool {
-		cm, err := reg.Get(n)
-		if err != nil {
-			panic(err)
-		}
-		coms[n] = cm
-	}
-	prc := make(price.Prices)
-	reported := map[string]bool{}
-	nontrivial := false
-	witness := func(day int, key, why string) bool {
-		if reported[key] {
-			return true
-		}
-		reported[key] = true
-		c.Violation(core.Witness{Case: i, Key: key, Why: why + fmt.Sprintf(" [LIB, after the declarations of %s, V=%s]", h.Dates[day], h.V),
-			Files: map[string][]byte{"prices.knut": []byte(h.pricesText(day))},
-			Extra: map[string]string{"repro.go": h.repro(day)}})
-		return key == "direct-price-not-preferred" || key == "nondeterministic-price"
-	}
-	for day := range h.Days {
-		for di, d := range h.Days[day] {
-			p, err := decimal.NewFromString(d.Price)
-			if err != nil {
-				panic(err)
-			}
-			if pv := guard(func() { err = prc.Insert(coms[d.Com], p, coms[d.Tgt]) }); pv != nil {
-				return witness(day, "panic-insert", fmt.Sprintf("Insert(%s, %s, %s) panics: %v", d.Com, d.Price, d.Tgt, pv))
-			}
-			isZero := h.Zero && day == len(h.Days)-1 && di == len(h.Days[day])-1
-			if isZero {
-				c.Count("zero_prices", 1)
-				if err == nil {
-					return witness(day, "zero-price-accepted", fmt.Sprintf("Insert(%s, %s, %s) returns no error", d.Com, d.Price, d.Tgt))
-				}
-				return true // the history ends at the rejected price
-			}
-			if err != nil {
-				return witness(day, "price-rejected", fmt.Sprintf("Insert(%s, %s, %s) fails: %v", d.Com, d.Price, d.Tgt, err))
-			}
-		}
-		st := c12Replay(h, day)
-		outcomes := map[string]map[string]bool{}
-		for rep := 0; rep < c12Reps; rep++ {
-			var np price.NormalizedPrices
-			if pv := guard(func() { np = prc.Normalize(coms[h.V]) }); pv != nil {
-				return witness(day, "panic-normalize", fmt.Sprintf("Normalize(%s) panics: %v", h.V, pv))
-			}
-			for _, n := range h.Pool {
-				obs := ""
-				if p, err := np.Price(coms[n]); err == nil {
-					obs = p.String()
-					v, err := np.Valuate(coms[n], decimal.NewFromInt(1))
-					if err != nil || !v.Equal(p) {
-						if !witness(day, "valuate-differs-from-price", fmt.Sprintf("Price(%s) = %s but Valuate(%s, 1) = %s, %v", n, p, n, v, err)) {
-							return false
-						}
-					}
-				} else if _, err := np.Valuate(coms[n], decimal.NewFromInt(1)); err == nil {
-					if !witness(day, "unreachable-valued", fmt.Sprintf("Price(%s) fails but Valuate(%s, 1) succeeds", n, n)) {
-						return false
-					}
-				}
-				if outcomes[n] == nil {
-					outcomes[n] = map[string]bool{}
-				}
-				outcomes[n][obs] = true
-			}
-		}
-		derived, priced := 0, 0
-		for _, n := range h.Pool {
-			var vals []string
-			for o := range outcomes[n] {
-				vals = append(vals, o)
-			}
-			sort.Strings(vals)
-			if len(vals) > 1 {
-				if st.latest[pairKey(n, h.V)] != nil {
-					c.Count("nondeterministic_directly_declared_pair", 1)
-				} else {
-					c.Count("nondeterministic_derived_only", 1)
-				}
-				if !witness(day, "nondeterministic-price", fmt.Sprintf("%d normalisations of the same declarations give different prices of %s in %s: %s", c12Reps, n, h.V, strings.Join(vals, " / "))) {
-					return false
-				}
-			}
-			for _, o := range vals {
-				if key, why := st.judge(h.V, n, o); key != "" {
-					if !witness(day, key, why) {
-						return false
-					}
-				}
-			}
-			if n != h.V && st.reachable(h.V, n) {
-				priced++
-				if st.latest[pairKey(n, h.V)] == nil {
-					derived++
-				}
-			} else if n != h.V {
-				nontrivial = true // unreachable commodity
-			}
-		}
-		if priced >= 2 && derived >= 1 {
-			nontrivial = true
-		}
-		for _, l := range st.latest {
-			if len(l.older) > 0 {
-				nontrivial = true
-			}
-		}
-	}
-	if nontrivial && len(reported) == 0 {
-		c.Nontrivial(h.pricesText(len(h.Days)) + "|" + h.V)
-		if c.WantSample() && len(h.Days) >= 2 {
-			c.Sample(map[string]any{"prices": h.pricesText(len(h.Days)), "V": h.V, "shape": h.Shape})
-		}
-	}
-	return true
-}
 
 // ---------------------------------------------------------------- CLI
 
